@@ -37,6 +37,8 @@ pub fn check_with(c: &Case, ctx: &mut Ctx, via_default: bool) -> Result<(), Fail
     let n = c.cfg.n();
     let m = c.cfg.m.0;
     let mut ind = if via_default { Ind::default_of(k) } else { Ind::build(k, &c.cfg.params()).map_err(|_| Failure { signature: "C01:harness:build".into(), detail: "HARNESS build failed".into() })? };
+    // a Default-built instance is judged by the period it reports (which C11 separately ties to the documented default)
+    let n = if via_default { ind.period().unwrap_or(n) } else { n };
     let mut hist: Vec<f64> = Vec::with_capacity(c.xs.len());
     let mut big = 0.0f64;
     let mut fp = Fp::new("C01");
